@@ -19,7 +19,7 @@ Executed on the real code, compared with formulas written from the property stat
  C  scale None: threshold_ == the (1 - level) quantile (linear interpolation between order statistics, written out here)
     of the detector's own scores on the training data, and #{score > threshold_} <= ceil(level (N-1)) (DESIGN 10-C15: the
     literal "fraction level" fails for tiny N and is not asserted; exceedances are counted with a decision margin).
- D  PELT: for penalties b1 < b2 (gap >= 0.25, far above rounding) the number of reported changepoints does not increase;
+ D  PELT: for penalties b1 < b2 (gap >= 0.125, far above rounding) the number of reported changepoints does not increase;
     run_pelt directly and PELT(penalty_scale=s).fit_predict(X) on small integer / rounded-normal series.
 
 fit() errors on configurations that belong to other properties (empty seeded-interval set for n close to
@@ -332,7 +332,7 @@ def part_c(rec, tier, seed, errors):
 # ----------------------------------------------------------------------------------------------------------------------
 # D. PELT: a larger penalty never increases the number of changepoints
 # ----------------------------------------------------------------------------------------------------------------------
-LADDER = [0.0, 0.25, 0.5, 1.0, 2.0, 4.0, 8.0, 16.0]
+LADDER = [0.0, 0.125, 0.25, 0.375, 0.5, 0.625, 0.75, 1.0, 1.25, 1.5, 2.0, 2.5, 3.0, 4.0, 6.0, 8.0, 16.0]
 
 
 def make_cost(kind):
@@ -352,54 +352,60 @@ def count_changepoints(kind, X, m, beta, via):
     return len(np.asarray(det.fit_predict(pd.DataFrame(X))).reshape(-1))
 
 
-def check_monotone(rec, kind, X, m, via):
-    """Returns (violated, counts).  Reports the pair of penalties with the smallest index distance."""
+def check_monotone(kind, X, m, via):
+    """Returns (violation or None, counts); the violation names the offending pair of penalties that is closest on the ladder."""
     counts = [count_changepoints(kind, X, m, b, via) for b in LADDER]
     for gap in range(1, len(LADDER)):
         for i in range(len(LADDER) - gap):
             if counts[i + gap] > counts[i]:
                 b1, b2 = LADDER[i], LADDER[i + gap]
-                rec.violation(f"PELT:penalty-monotonicity:{'m=1' if m == 1 else 'm>=2'}",
-                              f"{via} with {kind}, n={len(X)}, min_segment_length={m}: penalty {b1:g} gives {counts[i]} changepoint(s) but the "
-                              f"larger penalty {b2:g} gives {counts[i + gap]} (counts along {LADDER}: {counts})",
-                              "C15.penalty-monotone", {"part": "D", "cost": kind, "X": X, "m": m, "via": via, "penalties": [b1, b2]},
-                              "skchange/change_detectors/pelt.py::run_pelt")
-                return True, counts
-    return False, counts
+                return (f"PELT:penalty-monotonicity:{'m=1' if m == 1 else 'm>=2'}",
+                        f"{via} with {kind}, X={np.asarray(X).T.tolist() if X.shape[1] > 1 else X.reshape(-1).tolist()} (n={len(X)}), "
+                        f"min_segment_length={m}: penalty {b1:g} gives {counts[i]} changepoint(s) but the larger penalty {b2:g} gives "
+                        f"{counts[i + gap]} (counts along {LADDER}: {counts})",
+                        "C15.penalty-monotone", {"part": "D", "cost": kind, "X": X, "m": m, "via": via, "penalties": [b1, b2]},
+                        "skchange/change_detectors/pelt.py::run_pelt"), counts
+    return None, counts
 
 
 def part_d(rec, tier, seed, stats):
     rng = np.random.default_rng(seed + 1)
-    n_exh = 6 if tier == "quick" else 8
-    n_rand = 250 if tier == "quick" else 4000
+    n_full = 5 if tier == "quick" else 7
+    n_rand = 520 if tier == "quick" else 3600
     n_max = 14 if tier == "quick" else 20
+    found = []
 
-    def one(kind, X, via):
-        ms = 2 if kind == "GaussianVarCost" else 1
+    def one(kind, X, via, with_m1=True):
+        ms = 2 if kind == "GaussianVarCost" or not with_m1 else 1
         for m in range(ms, 4):
             if len(X) < 2 * m:
                 continue
-            bad, counts = check_monotone(rec, kind, X, m, via)
+            bad, counts = check_monotone(kind, X, m, via)
             fam = stats.setdefault(f"{kind},{'m=1' if m == 1 else 'm>=2'}", {"cases": 0, "violating": 0, "smallest_n": None})
             fam["cases"] += 1
             if bad:
+                found.append((len(X), X.shape[1], len(found), bad))
                 fam["violating"] += 1
                 fam["smallest_n"] = len(X) if fam["smallest_n"] is None else min(fam["smallest_n"], len(X))
             rec.case(("D", via, kind, tuple(X.reshape(-1).tolist()), X.shape[1], m), len(set(counts)) > 1,
                      {"part": "D", "path": via, "cost": kind, "n": len(X), "m": m, "counts_along_ladder": counts})
 
-    for n in range(2, n_exh + 1):                                      # all of {0,1,2}^n, L2 cost
+    for n in range(2, n_full + 1):                                     # all of {0,1,2}^n, L2 cost
         for xs in itertools.product((0, 1, 2), repeat=n):
-            if xs[0] != 0 and n > 4:                                   # the L2 cost is translation invariant / reflection symmetric
-                continue
             one("L2Cost", np.array(xs, dtype=float).reshape(-1, 1), "run_pelt")
+    if tier != "quick":                                                # n = 8: the sequences of {0,1,2}^8 that start with 0
+        for xs in itertools.product((0, 1, 2), repeat=7):
+            one("L2Cost", np.array((0,) + xs, dtype=float).reshape(-1, 1), "run_pelt")
     for j in range(n_rand):
-        n = int(rng.integers(5, n_max + 1))
-        p = 1 if j % 3 else 2
-        X = rng.integers(-2, 3, size=(n, p)).astype(float) if j % 2 else np.round(rng.normal(size=(n, p)) * 2, 1)
-        one("L2Cost" if j % 4 else "GaussianVarCost", X, "class" if j % 5 == 0 else "run_pelt")
-    return (f"D: penalties {LADDER}; L2 cost on all of {{0,1,2}}^n (first entry 0 for n > 4) for n <= {n_exh}; {n_rand} random series, "
-            f"n <= {n_max}, p <= 2, L2 / Gaussian-variance cost, min_segment_length <= 3")
+        n = int(rng.integers(6, n_max + 1))
+        p = 2 if j % 5 == 3 else 1
+        X = rng.integers(-2, 3, size=(n, p)).astype(float) if j % 3 == 0 else np.round(rng.normal(size=(n, p)) * 2, 1)
+        one("GaussianVarCost" if j % 4 == 0 else "L2Cost", X, "class" if j % 7 == 0 else "run_pelt", with_m1=(j % 4 == 1))
+    for _, _, _, v in sorted(found, key=lambda t: t[:3]):             # smallest series first: it is the one kept per key
+        rec.violation(*v)
+    return (f"D: penalties {LADDER}; L2 cost on all of {{0,1,2}}^n for n <= {n_full}" + ("" if tier == "quick" else " and on 0 x {0,1,2}^7")
+            + f"; {n_rand} random series (integers in -2..2 or normal rounded to 0.1), 6 <= n <= {n_max}, p <= 2, L2 / Gaussian-variance cost, "
+            "min_segment_length <= 3 (1 for every fourth series only), run_pelt and PELT.fit_predict")
 
 
 # ----------------------------------------------------------------------------------------------------------------------
